@@ -17,7 +17,7 @@
     Independently the harness resolves every accepted payload to (entry, commit, label) through unique
     row tokens and compares with the row changes of the committed log (reference database diff).
     One scenario runs on the shared live 3-node cluster with the real wiring (cdc-live)."""
-import json, os, threading
+import json, os, re, threading
 from concurrent.futures import ThreadPoolExecutor
 import vlib
 LEVEL = "model_checking"
@@ -91,6 +91,13 @@ def make_key(rows):
         i = bad.get("ln", 0) - 1
         _, ctxrows = run_of(rows, i) if 0 <= i < len(rows) else ("?", [])
         ev = bad.get("ev", "?")
+        # TLC wraps long PrintT lines, so the spec's names are short; the keys spell them out
+        name = name.replace(":later-commit", ":later-commit-of-entry")
+        name = {"lost:batch-key-reused": "lost:batch-key-already-used-ignored-by-fifo",
+                "lost:batch-key-reused:later-commit-of-entry": "lost:batch-key-already-used-ignored-by-fifo:later-commit-of-entry",
+                "lost:batch-key-0": "lost:batch-key-0-ignored-by-fifo",
+                "lost:batch-key-0:later-commit-of-entry": "lost:batch-key-0-ignored-by-fifo:later-commit-of-entry",
+                "lost:unsent-batch-skipped": "lost:unsent-batch-skipped-after-leadership-change"}.get(name, name)
         if name == "label-index0-second-commit-of-entry":
             return "cdc:label:index0:second-commit-of-entry"
         if name == "label-not-the-entry-index":
@@ -147,6 +154,9 @@ def run(ctx):
         ctx.cov.setdefault("binding_selftests", []).append({"module": "TraceCDC", "rejected_trace_with_removed_delivery": True})
 
     r = vlib.trace_check(ctx, "TraceCDC", "TraceCDC.cfg", tr, "cdc pipeline", key_fn=make_key(rows), timeout=ctx.pick(900, 3000), heap="12g")
+    allbad = {(int(a), b) for a, b in re.findall(r'<<\s*"@@BAD",\s*(\d+),\s*"([^"]+)"\s*>>', r["out"])}
+    if allbad != set(r["bads"]):
+        raise vlib.Undecided("TLC wrapped a flag line the library did not parse: %s" % sorted(allbad - set(r["bads"]))[:5])
     flagged = {}
     for line, name in r["bads"]:
         nm, _ = run_of(rows, line - 1)
